@@ -1,0 +1,27 @@
+//! Verification-only seam (compiled only with `--cfg libp2p_verif`).
+//!
+//! Connection ids come from a process-wide counter. A deterministic simulator that runs many
+//! independent simulations in one process (one per thread) needs the ids of a run to be a
+//! function of that run alone, so it can switch the current thread to a thread-local counter.
+//! Off by default: without a call to [`set_thread_local_connection_ids`] nothing changes.
+
+use std::cell::Cell;
+
+thread_local! {
+    static NEXT_CONNECTION_ID: Cell<Option<usize>> = const { Cell::new(None) };
+}
+
+/// `Some(start)`: allocate connection ids for this thread from `start` upwards.
+/// `None`: back to the process-wide counter.
+pub fn set_thread_local_connection_ids(start: Option<usize>) {
+    NEXT_CONNECTION_ID.with(|c| c.set(start));
+}
+
+pub(crate) fn next_connection_id() -> Option<usize> {
+    NEXT_CONNECTION_ID.with(|c| {
+        c.get().map(|v| {
+            c.set(Some(v + 1));
+            v
+        })
+    })
+}
